@@ -65,3 +65,14 @@ def nodup_subset_length_le(eng, s1, s2):
     eng.assumed.add("ghost lemma L2 nodup_subset_length_le (lemmas/Lemmas.lean, checked by Lean 4 + Mathlib)")
     x = fresh("lx", s1.arr.sort().range())
     return z3.Implies(z3.And(_nodup(s1), z3.ForAll([x], z3.Implies(_mem(s1, x), _mem(s2, x)))), s1.n <= s2.n)
+
+
+def ancestor_or_self_preorder(eng, rel):
+    """L6: a relation satisfying `rel(a, b) <-> a = b \\/ (parent b exists /\\ rel(a, parent b))` over a forest of finite depth is reflexive and transitive.
+    Returns the two facts as axioms for the uninterpreted relation `rel`; the recursive equation is discharged by kernel C04.P.is_predecessor, finite depth
+    (no cycle through `parent`) stays an assumption."""
+    from .pyvc.values import Obj
+    eng.assumed.add("ghost lemma L6 ancestor_or_self_refl / ancestor_or_self_trans (lemmas/Lemmas.lean, checked by Lean 4 + Mathlib): a relation satisfying the recursive equation of "
+                    "Scope.is_predecessor_of (C04.P.is_predecessor) over parent chains of finite depth is reflexive and transitive; finite depth (no cycle through `parent`) is assumed")
+    a, b, c = z3.Const("l6a", Obj), z3.Const("l6b", Obj), z3.Const("l6c", Obj)
+    return [z3.ForAll([a], rel(a, a)), z3.ForAll([a, b, c], z3.Implies(z3.And(rel(a, b), rel(b, c)), rel(a, c)))]
